@@ -34,7 +34,13 @@ pub struct TcpConn {
     pub early_k: usize,
     /// the target starts reading only after this delay (back-pressure through the whole tunnel)
     pub target_read_delay_ms: u64,
+    /// entries 6 and 8 with target_mode 3 only: the destination named is one there is no route to
+    /// (the server's connect fails with NetworkUnreachable instead of being refused)
+    #[serde(default)]
+    pub unreachable: bool,
 }
+/// an IPv6 destination without a route (fd00::dead)
+pub const UNREACHABLE_V6: std::net::Ipv6Addr = std::net::Ipv6Addr::new(0xfd00, 0, 0, 0, 0, 0, 0, 0xdead);
 #[derive(Serialize, Deserialize, Clone, Debug)]
 pub struct UdpClient {
     pub via_socks: bool,
@@ -182,7 +188,7 @@ async fn read_until_crlfcrlf<R: AsyncRead + Unpin>(r: &mut R) -> Result<Vec<u8>,
 
 /// the messages a local client sends to its entry point, in order (written from RFC 1928 /
 /// SOCKS4(a) / RFC 7231 CONNECT); each is answered by one reply
-fn entry_messages(entry: u8, port: u16) -> Vec<Vec<u8>> {
+fn entry_messages(entry: u8, port: u16, unreachable: bool) -> Vec<Vec<u8>> {
     match entry {
         2 | 3 => {
             let mut req = vec![4u8, 1];
@@ -217,14 +223,14 @@ fn entry_messages(entry: u8, port: u16) -> Vec<Vec<u8>> {
                 }
                 _ => {
                     req.push(4);
-                    req.extend(std::net::Ipv6Addr::LOCALHOST.octets());
+                    req.extend(if unreachable { UNREACHABLE_V6.octets() } else { std::net::Ipv6Addr::LOCALHOST.octets() });
                 }
             }
             req.extend(port.to_be_bytes());
             vec![vec![5, 1, 0], req]
         }
         7 | 8 => {
-            let host = if entry == 8 { "[::1]" } else { "target.sim" };
+            let host = if entry == 8 && unreachable { "[fd00::dead]" } else if entry == 8 { "[::1]" } else { "target.sim" };
             vec![format!("CONNECT {host}:{port} HTTP/1.1\r\nHost: {host}:{port}\r\n\r\n").into_bytes()]
         }
         _ => vec![],
@@ -285,8 +291,8 @@ async fn entry_reply<S: AsyncRead + Unpin>(s: &mut S, entry: u8, k: usize) -> Re
     }
 }
 /// entry-point handshake of a local client: one message, one reply, in turn
-async fn entry_handshake<S: AsyncRead + AsyncWrite + Unpin>(s: &mut S, entry: u8, port: u16) -> Result<(), String> {
-    for (k, m) in entry_messages(entry, port).into_iter().enumerate() {
+async fn entry_handshake<S: AsyncRead + AsyncWrite + Unpin>(s: &mut S, entry: u8, port: u16, unreachable: bool) -> Result<(), String> {
+    for (k, m) in entry_messages(entry, port, unreachable).into_iter().enumerate() {
         s.write_all(&m).await.map_err(|x| x.to_string())?;
         entry_reply(s, entry, k).await?;
     }
@@ -299,7 +305,7 @@ async fn local_client<S: AsyncRead + AsyncWrite + Unpin>(mut s: S, i: usize, c: 
         // an eager client: the entry-point messages, the whole upload and the half-close leave at
         // once, before any reply has been read (`printf 'CONNECT ...' | nc -N`); then the replies
         // and the answer to its end
-        let msgs = entry_messages(c.entry, port);
+        let msgs = entry_messages(c.entry, port, c.unreachable && c.target_mode == 3);
         let mut all: Vec<u8> = msgs.concat();
         let mut off = 0u64;
         for n in &c.up {
@@ -340,7 +346,7 @@ async fn local_client<S: AsyncRead + AsyncWrite + Unpin>(mut s: S, i: usize, c: 
         }
         return;
     }
-    if let Err(e) = entry_handshake(&mut s, c.entry, port).await {
+    if let Err(e) = entry_handshake(&mut s, c.entry, port, c.unreachable && c.target_mode == 3).await {
         res.borrow_mut()[i].handshake = Some(e);
         res.borrow_mut()[i].client_done = Some("handshake failed".into());
         return;
@@ -735,6 +741,7 @@ pub fn run(plan: &C01Plan, sched: &Sched) -> Outcome {
         let plan = plan2;
         penguin_simnet::with(|w| {
             w.dns.insert("target.sim".into(), vec![std::net::Ipv4Addr::LOCALHOST.into()]);
+            w.unreachable.push(UNREACHABLE_V6.into());
             w.dns.insert("dual.sim".into(), vec![std::net::Ipv6Addr::LOCALHOST.into(), std::net::Ipv4Addr::LOCALHOST.into()]);
         });
         let cres: Rc<RefCell<Vec<ConnRes>>> = Rc::new(RefCell::new(vec![ConnRes::default(); plan.tcp.len()]));
@@ -950,6 +957,9 @@ pub fn run(plan: &C01Plan, sched: &Sched) -> Outcome {
                 // refusing target behind SOCKS/HTTP: the entry point may answer with a failure or close; anything but a hang
                 if c.target_mode == 3 || c.target_mode == 2 {
                     o.probe("target-refused-or-closed-early", 1);
+                    if c.unreachable && c.target_mode == 3 {
+                        o.probe("fault:destination-without-a-route", 1);
+                    }
                 } else {
                     o.violate("C01:entry-handshake", format!("{h}; {desc}"));
                 }
@@ -998,6 +1008,9 @@ pub fn run(plan: &C01Plan, sched: &Sched) -> Outcome {
                 // the target closed early or refused: the local connection is closed rather than left hanging
                 // (client_done is set), and whatever arrived is a prefix
                 o.probe("target-refused-or-closed-early", 1);
+                if c.unreachable && c.target_mode == 3 {
+                    o.probe("fault:destination-without-a-route", 1);
+                }
             }
             6 => {
                 // the local client went away while the target was sending: a direct connection
